@@ -6,10 +6,10 @@
    are re-proved against the current source each time.  [carries_ref], [appropriate], [known_row]
    are the hand-written specification C07/Spec.v. *)
 From Coq Require Import String.
-From FB Require Import C07.Model C07.Spec C07.Theory C07.WithC06.
+From FB Require Import C07.Model C07.Spec C07.Theory C07.WithC06 C07.Tree C07.TreeTheory.
 
 (* Th 1: every position that carries a class / field / method reference is rebuilt with the
-   remapper method appropriate for it (outside the rows recorded as known findings) *)
+   remapper method appropriate for it (outside the rows recorded as known findings: none today) *)
 Theorem C07_every_ref_remapped :
   forall r, In r rows -> known_row r = false -> carries_ref type_defs r = true ->
             effective r = Remapped (appropriate r).
@@ -27,18 +27,22 @@ Theorem C07_nothing_else_changes :
 Proof. exact nothing_else_changes. Qed.
 Print Assumptions C07_nothing_else_changes.
 
-(* the known findings are real: on those rows the unrestricted statements
-   [every_ref_remapped_full] / [nothing_else_changes_full] (C07/Theory.v, not proved) fail *)
-Theorem C07_every_ref_remapped_refuted :
-  exists r, In r rows /\ known_row r = true /\ carries_ref type_defs r = true /\
-            effective r <> Remapped (appropriate r).
-Proof. exact every_ref_remapped_refuted. Qed.
-Print Assumptions C07_every_ref_remapped_refuted.
+(* no row is recorded as a known finding today ([known_row] is constantly false): Th 1 and Th 2 hold
+   for every row *)
+Theorem C07_every_ref_remapped_full :
+  forall r, In r rows -> carries_ref type_defs r = true -> effective r = Remapped (appropriate r).
+Proof. exact every_ref_remapped_full_holds. Qed.
+Print Assumptions C07_every_ref_remapped_full.
 
-Theorem C07_nothing_else_changes_refuted :
-  exists r, In r rows /\ known_row r = true /\ carries_ref type_defs r = false /\ effective r <> Copied.
-Proof. exact nothing_else_changes_refuted. Qed.
-Print Assumptions C07_nothing_else_changes_refuted.
+Theorem C07_nothing_else_changes_full :
+  forall r, In r rows -> carries_ref type_defs r = false -> effective r = Copied.
+Proof. exact nothing_else_changes_full_holds. Qed.
+Print Assumptions C07_nothing_else_changes_full.
+
+(* the rows of the former findings F18c / F18d (record components, module data) are rebuilt now *)
+Theorem C07_former_findings_repaired : former_findings_repaired.
+Proof. exact former_findings_repaired_holds. Qed.
+Print Assumptions C07_former_findings_repaired.
 
 (* the table describes every field of every rebuilt type of duke's tree, and only those *)
 Theorem C07_table_covers_definitions : table_covers_definitions.
@@ -101,3 +105,105 @@ Print Assumptions C07_composes_with_C06.
 Theorem C07_examples : nonvacuous.
 Proof. exact nonvacuous_holds. Qed.
 Print Assumptions C07_examples.
+
+(* ------------------------------------------------------------------ *)
+(* Whole trees (C07/Tree.v, C07/TreeTheory.v).
+   [val]: tree values typed by [type_defs] ([has_ty]).  [remap_val tb]: the generic interpreter of a
+   table (impl dispatch, rows, how the class name is handed down, joint positions, dropped fields).
+   [spec_remap_val]: the specification, by recursion on the value directed by its type, from
+   C07/Spec.v and the type definitions only — never the rows or impl kinds.  [table_ok]: the finite
+   check of a table (per row Th 1, the no-rule check and Th 2 above, plus how the class name is
+   handed down; coverage of duke's definitions by rows).  [clean]: nothing at the positions of the
+   rows recorded as known findings.  [deleg_ok]: `.remap…` may be called on the type. *)
+
+(* Th 6: rows => every tree — for ANY table that passes the finite check, every remapper, every
+   well-typed value: the interpreter computes exactly what the specification demands *)
+Theorem C07_remap_val_spec_any_table :
+  forall (tb : table) (DT : list string) (known : row -> bool),
+    table_ok tb (ref_types (t_defs tb)) DT known = true ->
+    forall (R : remapper) (ctx : option str) (T : rty) (v : val),
+      deleg_ok tb (ref_types (t_defs tb)) T = true ->
+      has_ty (t_defs tb) T v = true ->
+      clean tb known v = true ->
+      remap_val tb R ctx T v = spec_remap_val (t_defs tb) R ctx T v.
+Proof. exact remap_val_spec_gen. Qed.
+Print Assumptions C07_remap_val_spec_any_table.
+
+(* the table regenerated from dukebox/src/remap.rs and duke/src/tree passes the check (re-proved on
+   every run), the four rows of [known_row] being dropped fields *)
+Theorem C07_table_ok : table_ok gen_table (ref_types type_defs) DT known_row = true.
+Proof. exact gen_table_ok. Qed.
+Print Assumptions C07_table_ok.
+
+Theorem C07_rows_ok :
+  forall r, In r rows -> known_row r = false -> row_ok gen_table (ref_types type_defs) DT r = true.
+Proof. exact gen_rows_ok. Qed.
+Print Assumptions C07_rows_ok.
+
+(* the per-row check contains Th 1 and Th 2 *)
+Theorem C07_row_ok_contains_th1_th2 :
+  forall tb S D r, row_ok tb S D r = true ->
+    (carries_ref_in S r = true -> effective_t tb r = Remapped (appropriate r)) /\
+    (carries_ref_in S r = false -> effective_t tb r = Copied).
+Proof. intros tb S D r H. split; [exact (row_ok_th1 tb S D r H)|exact (row_ok_th2 tb S D r H)]. Qed.
+Print Assumptions C07_row_ok_contains_th1_th2.
+
+(* Th 6 for the regenerated table, any type `.remap…` may be called on *)
+Theorem C07_remap_val_spec :
+  forall (R : remapper) (ctx : option str) (T : rty) (v : val),
+    deleg_ok gen_table (ref_types type_defs) T = true ->
+    has_ty type_defs T v = true ->
+    clean gen_table known_row v = true ->
+    remap_val gen_table R ctx T v = spec_remap_val type_defs R ctx T v.
+Proof. exact remap_val_spec. Qed.
+Print Assumptions C07_remap_val_spec.
+
+(* … and for whole classes *)
+Theorem C07_remap_class_spec :
+  forall (R : remapper) (ctx : option str) (v : val),
+    has_ty type_defs (TName "ClassFile") v = true ->
+    clean gen_table known_row v = true ->
+    remap_val gen_table R ctx (TName "ClassFile") v = spec_remap_val type_defs R ctx (TName "ClassFile") v.
+Proof. exact remap_class_spec. Qed.
+Print Assumptions C07_remap_class_spec.
+
+(* projections: the shape of the tree (constructors, struct / variant / field names, list lengths —
+   the instruction list entry by entry) and every opaque leaf (flags, constants, line numbers, labels)
+   come out as they went in *)
+Theorem C07_shape_and_opaque_leaves_preserved :
+  forall (R : remapper) (ctx : option str) (T : rty) (v v' : val),
+    deleg_ok gen_table (ref_types type_defs) T = true ->
+    has_ty type_defs T v = true ->
+    clean gen_table known_row v = true ->
+    remap_val gen_table R ctx T v = Ok v' ->
+    same_shape v v' = true /\ opaques v' = opaques v.
+Proof. exact remap_val_shape. Qed.
+Print Assumptions C07_shape_and_opaque_leaves_preserved.
+
+(* the specification itself never changes a shape, for any type definitions *)
+Theorem C07_spec_preserves_shape :
+  forall defs S R v T ctx v', spec_val defs S R ctx T v = Ok v' -> same_shape v v' = true.
+Proof. exact spec_val_shape. Qed.
+Print Assumptions C07_spec_preserves_shape.
+
+(* a value of a type that carries no reference is unchanged *)
+Theorem C07_nonref_unchanged :
+  forall (R : remapper) (ctx : option str) (T : rty) (v : val),
+    deleg_ok gen_table (ref_types type_defs) T = true ->
+    has_ty type_defs T v = true ->
+    clean gen_table known_row v = true ->
+    carries_ref_ty type_defs T = false ->
+    remap_val gen_table R ctx T v = Ok v.
+Proof. exact remap_val_nonref. Qed.
+Print Assumptions C07_nonref_unchanged.
+
+(* no type argument of a generic tree type carries a reference (the interpreter and the specification
+   both leave a field of the parameter type alone) *)
+Theorem C07_targs_carry_no_refs : targs_carry_no_refs.
+Proof. exact targs_carry_no_refs_holds. Qed.
+Print Assumptions C07_targs_carry_no_refs.
+
+(* non-vacuity: a concrete class, renamed as expected by interpreter and specification *)
+Theorem C07_tree_example : tree_example.
+Proof. exact tree_example_holds. Qed.
+Print Assumptions C07_tree_example.
